@@ -77,8 +77,14 @@ theorem stakingDelegate_gapT (v : ValId) (snap : SVal) (amt : Int) (d : Denom) (
   · intro _
     apply GapT.bind0 (sendCoins_other_gapT _ _ _ _ d t hg0.notBond); intro _
     apply GapT.getW_bind; intro w1 _ _
-    apply GapT.bind0 (by gt_frame); intro _
-    gt_frame
+    try dsimp only []
+    apply GapT.ite
+    · intro _
+      apply GapT.bind0 (by gt_frame); intro _
+      exact GapT.panicE _
+    · intro _
+      apply GapT.bind0 (by gt_frame); intro _
+      gt_frame
 
 theorem stakingUnbond_gapT (v : ValId) (shares : Dec) (d : Denom) (t : Int) :
     GapT d t t 0 (stakingUnbond v shares) := by
